@@ -1,5 +1,12 @@
-//! Family binary (checks are registered here).
+//! Family binary: gossipsub behaviour-level properties (C27, C28, C29, C35) on the GsNode seam.
+mod c28;
+mod c29;
+mod explore;
+mod meshrun;
+mod meshsys;
+mod node;
 
 fn main() {
-    mc::main_dispatch(&[]);
+    mc::main_dispatch(&[("C28", c28::run, c28::META), ("C29", c29::run, c29::META)]);
 }
+
